@@ -1227,6 +1227,23 @@ Proof.
   induction prods as [|o r IH]; intro x; simpl; [reflexivity|]. rewrite IH. reflexivity.
 Qed.
 
+(* a running handler is never interrupted or nested: from PRun the only move of that
+   consumer process is the handler's own end *)
+Lemma handler_runs_to_completion x a j k c v ok p' :
+  nth_error (pcs x) j = Some (PRun k c v ok) ->
+  nth_error (pcs (istep x a)) j = Some p' ->
+  p' = PRun k c v ok \/ p' = PTop \/ p' = PDead k.
+Proof.
+  intros H H'. destruct a as [o|j0 i]; simpl in H'.
+  - rewrite H in H'. inv H'. auto.
+  - destruct (nth_error (pcs x) j0) as [p0|] eqn:E0; [|rewrite H in H'; inv H'; auto].
+    destruct (cstep (sh x) p0 i) as [[s1 p1]|] eqn:EC; [|rewrite H in H'; inv H'; auto].
+    simpl in H'. destruct (Nat.eq_dec j0 j) as [->|N].
+    + rewrite H in E0. inv E0. simpl in EC. inv EC.
+      rewrite (nth_error_upd_same _ _ _ _ H) in H'. inv H'. destruct ok; auto.
+    + rewrite nth_error_upd_other in H' by exact N. rewrite H in H'. inv H'. auto.
+Qed.
+
 Lemma full_send_blocks s c v : snd (step s (OSend c v)) = EFull -> fst (step s (OSend c v)) = s.
 Proof.
   simpl. destruct (valid_user_chan s c); [|discriminate].
